@@ -395,6 +395,35 @@ func storeLeg(c *harness.Ctx, rng *rand.Rand, idx desync.Index, raw []byte, sha2
 			stored, _ = os.ReadFile(filepath.Join(dir, name))
 			got, err = s.GetIndex(name)
 		}
+		if err == nil && len(idx.Chunks) > 0 && rng.Intn(2) == 0 {
+			// the file is replaced from outside (rsync -t, cp -p of a release with clamped time stamps) by another index of
+			// the same length carrying the same modification time: the store reads what is there now
+			p := filepath.Join(dir, name)
+			st, _ := os.Stat(p)
+			other := idx
+			other.Chunks = append([]desync.IndexChunk(nil), idx.Chunks...)
+			for k := range other.Chunks {
+				other.Chunks[k].ID[0] ^= 0xff
+				other.Chunks[k].ID[31] ^= 0x55
+			}
+			var ob bytes.Buffer
+			other.WriteTo(&ob)
+			if ob.Len() == len(stored) && st != nil {
+				dsu.Must(os.WriteFile(p+".new", ob.Bytes(), 0644))
+				dsu.Must(os.Chtimes(p+".new", st.ModTime(), st.ModTime()))
+				dsu.Must(os.Rename(p+".new", p))
+				again, gerr := s.GetIndex(name)
+				if gerr != nil {
+					c.Violation("store-local-replaced", "GetIndex after the file was replaced by another valid index: %v", gerr)
+					return
+				}
+				if d := sameIndex(other, again); d != "" {
+					c.Violation("store-local-replaced", "the index file was replaced from outside by another index of the same length and modification time; GetIndex does not return what the file holds now: %s", d)
+					return
+				}
+				c.Count("index_files_replaced_from_outside", 1)
+			}
+		}
 	case "http":
 		ls, e := desync.NewLocalIndexStore(dir)
 		dsu.Must(e)
@@ -466,6 +495,10 @@ func storeLeg(c *harness.Ctx, rng *rand.Rand, idx desync.Index, raw []byte, sha2
 		blob := dsu.MakeBlob(rng, "random", 3000+rng.Intn(20000), dsu.Sizes{Min: 1024, Avg: 2048, Max: 4096})
 		dsu.WriteFile(filepath.Join(dir, "blob"), blob)
 		margs := []string{"make", "-m", "1:2:4", "-", filepath.Join(dir, "blob")}
+		if rng.Intn(2) == 0 {
+			// a reporting option: what goes to STDOUT is the index and nothing but the index
+			margs = []string{"make", "--print-stats", "-m", "1:2:4", "-", filepath.Join(dir, "blob")}
+		}
 		if sha256 {
 			margs = append([]string{"--digest", "sha256"}, margs...)
 		}
